@@ -4,7 +4,7 @@ from . import common, projgen, projcheck, projrun, ninjaparse
 
 PROF = projgen.profile(p_optsrc=0.45, p_rules_override=0.5, p_postlink=0.35, p_srcdir=0.25, p_subdir=0.5,
                        p_custom_build=0.1, p_download=0.08, p_tasks=0.05, p_varopts=0.1, p_nonshare=0.3)
-OBS = ("status", "decision", "modules", "outfile", "ninja")
+OBS = ("status", "decision", "modules", "loaded", "outfile", "ninja")
 
 
 def contexts_of(p):
